@@ -32,6 +32,7 @@ var rarelyGenerated = map[string]bool{
 
 var stringPool = []string{"a", "b", "x y", "popularity_score", "unavailable", "error_action", "success", "é", "q\"uote", "", "tech", "premium", "e"}
 var idPool = []string{"1", "2", "3", "7", "42", "abc", "storage-1"}
+
 // small non-negative integers only: the mock service sizes slices by some arguments (depth, perPage, limit)
 var intPool = []string{"0", "1", "2", "3", "5", "10"}
 var floatPool = []string{"0.5", "1.5", "2.0", "10.25", "-3.75", "100", "99.99", "0"}
